@@ -80,6 +80,15 @@ PROPS = {
         "oracles": ["utxo_reference"],
         "assumptions": ["faucet marker ids are disjoint from transaction hashes (domain-separated keyed hash) — hypothesis MarkersApart of C02_exact"],
     },
+    "C03": {
+        "modules": ["C03"],
+        "streams": [{"name": "apply", "quick": 45, "thorough": 600, "rayon": [1, 4, 2, 16]}, {"name": "chain", "quick": 20, "thorough": 300, "rayon": [1, 3]}],
+        "projection": "batch_all",
+        "compare_rayon": True,
+        "oracles": [],
+        "assumptions": ["rayon scheduling, FxHashMap/HashSet iteration order and cross-process hash seeds cannot be exhibited by a theorem: exercised by re-running every small batch in all permutations, the same seed under several RAYON_NUM_THREADS values (outputs must be byte-identical) and blocks whose transaction sets iterate in arbitrary order",
+                        "C03_perm assumes hash-distinct transactions, fresh created coin ids, the count invariant and that faucet pseudo-coins are not spent inside the batch (PermPre)"],
+    },
     "C04": {
         "modules": ["C04"],
         "streams": [{"name": "apply", "quick": 60, "thorough": 900}, {"name": "exec", "quick": 500, "thorough": 10000}],
